@@ -173,6 +173,21 @@ CLAIMED["C06"] = dict(
          "identification of a plain literal with its xsd:string form is accepted as a change.",
     ref="DESIGN.md section 3 C06")
 
+CLAIMED["C20"] = dict(
+    technique="symbolic execution of SPARQLStore / SPARQLUpdateStore (CrossHair + z3) with an endpoint model: the generated SPARQL text is parsed by rdflib's parser, placeholder terms are replaced by the symbolic terms, and the query/update is evaluated on a local Dataset",
+    text="Partial claim: the query / update text the stores generate and what they make of the results, not HTTP or result formats. The store's only doors to the "
+         "network (_query, _update) are replaced by an endpoint model (rdflib's own SPARQL parser on the concrete generated text, placeholders substituted by the "
+         "symbolic terms they stand for, rdflib's evaluator on a local Dataset(default_union=False); default-graph-uri selects the graph). Reads: endpoint data of 2 "
+         "symbolic triples over the default graph and a named graph (objects IRIs or falsy-capable literals), store-backed Graph / ConjunctiveGraph views; "
+         "triples() under all 8 pattern shapes with symbolic probe terms, len(), membership, contexts(triple) compared with the endpoint's data. Writes: "
+         "SPARQLUpdateStore with autocommit on, and off followed by commit / rollback / a read: add and remove (5 pattern shapes) sequences; after every step the "
+         "endpoint's graphs equal what the history defines (pending edits only after commit or before a read).",
+    note="Trusted base: as for the other engine-S properties, plus the endpoint model: rdflib's SPARQL parser (concrete text, untraced) and evaluators (checked by C04, "
+         "C08, C10) stand for the remote endpoint; symbolic terms carry a concrete slot number in their text so that the generated text is concrete while identity "
+         "and truthiness stay symbolic. HTTP, the XML/JSON result formats (C16), blank nodes, initBindings, LIMIT/OFFSET attributes, add_graph/remove_graph and "
+         "update() with user text are outside.",
+    ref="DESIGN.md section 3 C20")
+
 NA = {
     "C06": "document-level quad round trips run json/expat/regex scanners over text built from term contents; contents cannot be symbolic (C-level str.__new__), leaving only membership booleans = enumeration, not solver-based checking",
     "C12": "every parser keys its blank-node label map on text extracted by regex/SAX/JSON; a symbolic label is realised by that extraction (probe: no verdict in 300 s), what remains is a boolean 'same label or not'",
